@@ -148,3 +148,35 @@ pub fn replay_rope_bounds(w: &str) -> i32 {
   let f: Vec<usize> = w.split(':').map(|x| x.parse().unwrap()).collect();
   match run_rope_bounds(ropes[f[0]], f[1]) { Err(p) => { println!("REPRODUCED panic: {p}"); 1 } Ok(()) => { println!("NOT-REPRODUCED"); 0 } }
 }
+
+// ---- degenerate ropes: a multi-piece representation that holds no piece (C19).  An unsafe-precondition violation
+// aborts the process (debug builds check `get_unchecked`), so each case is announced before it runs. ----
+pub fn search_rope_degenerate(_args: &[String]) -> i32 {
+  let shapes: [Vec<&'static str>; 3] = [vec![], vec!["", ""], vec![""]];
+  let mut tried = 0;
+  for (i, sh) in shapes.iter().enumerate() {
+    for (a, b) in [(0usize, 0usize), (0, 1), (1, 1)] {
+      tried += 1;
+      println!("CASE {i}:{a}:{b}");
+      let r: Rope = sh.iter().copied().collect();
+      let s = r.get_byte_slice(a..b);
+      let want_some = a == 0 && b == 0;
+      if s.is_some() != want_some || r.get_byte(a).is_some() {
+        println!("WITNESS kind=ropedegenerate input={i}:{a}:{b}");
+        println!("DETAIL Rope::from_iter({sh:?}).get_byte_slice({a}..{b}) answered {:?}-ness wrongly", s.is_some());
+        println!("TRIED {tried}");
+        return 1;
+      }
+    }
+  }
+  println!("NO-WITNESS tried={tried}");
+  0
+}
+pub fn replay_rope_degenerate(w: &str) -> i32 {
+  let shapes: [Vec<&'static str>; 3] = [vec![], vec!["", ""], vec![""]];
+  let f: Vec<usize> = w.split(':').map(|x| x.parse().unwrap()).collect();
+  println!("CASE {w}");
+  let r: Rope = shapes[f[0]].iter().copied().collect();
+  let s = r.get_byte_slice(f[1]..f[2]);
+  if s.is_some() != (f[1] == 0 && f[2] == 0) { println!("REPRODUCED wrong answer"); 1 } else { println!("NOT-REPRODUCED"); 0 }
+}
